@@ -259,7 +259,8 @@ func main() {
 	harness.Main(harness.Check{
 		ID:    "C22",
 		Level: "fault_enumeration",
-		Rule: "case = generated cluster (2-3 hosts, 2-4 blocks per family, strict affinity in 60%) with 2-4 clients running 2-4 claim/release-dominated IPAM calls each in 1-2 phases (3 min of virtual time between phases so empty blocks become reclaimable); " +
+		Rule: "duel cases (first 144 quick / 576 thorough): one prologue state x one call of host A x one call of host B on a single-block pool, explored under EVERY schedule with <= 2 preemptions, then both hosts try to claim the block; " +
+			"random cases: generated cluster (2-3 hosts, 1-4 blocks per family, strict affinity in 60%) with 2-4 clients running 2-4 claim/release-dominated IPAM calls each in 1-2 phases (3 min of virtual time between phases so empty blocks become reclaimable); " +
 			"scheduled cases: 1 fault-free run + one re-run per (datastore write attempt x applicable fault kind) + 2-4 random multi-fault runs; every 8th case free-running under -race; " +
 			"non-trivial = at least two clients (distinct by schedule)",
 		Assumptions: []string{
@@ -282,9 +283,9 @@ func main() {
 		Run:         run,
 		CaseTimeout: 600 * time.Second,
 		Floors: map[string]int64{
-			"runs": 400, "logical_ops": 4000, "committed_writes": 10000, "affinity_writes": 4000, "conflicts_seen": 800, "conflicts_real": 300,
-			"fault_abort-before": 100, "fault_lost-reply": 100, "fault_spurious-conflict": 80, "fault_crash-after": 100,
-			"affinities_confirmed": 1000, "blocks_given_up": 200, "online_checks": 10000, "free_runs": 5,
+			"runs": 2000, "duels": 100, "duel_schedules": 2000, "logical_ops": 10000, "committed_writes": 30000, "affinity_writes": 20000,
+			"conflicts_seen": 2000, "conflicts_real": 2000, "fault_abort-before": 40, "fault_lost-reply": 40, "fault_spurious-conflict": 25, "fault_crash-after": 40,
+			"affinities_confirmed": 5000, "blocks_given_up": 1400, "online_checks": 30000, "free_runs": 2,
 		},
 	})
 }
